@@ -12,6 +12,7 @@ loader.exec_module(check)
 from props import PROPS
 
 def main():
+    check.run([sys.executable, os.path.join(ROOT, "tools", "extract_consts.py")])
     mods = sorted({m for p in PROPS.values() for m in p["theorems"]})
     rc, out = check.run(["lake", "build", "MlaModel", "Driver", "driver", "cryptotest", "MlaModel.Theorems.All"] + mods, cwd=check.LEAN)
     print(out[-2000:])
